@@ -359,3 +359,17 @@ func VerifLinks(tx, all *Transaction, key string) bool {
 	}
 	return true
 }
+
+// VerifRaceSelfTest: monitor self-test - properly locked accesses must not be reported.
+func VerifRaceSelfTest() {
+	nd.SetPreemptionBound(2)
+	p := NewPool[int](nil)
+	go func() {
+		x := p.Acquire()
+		p.Release(x)
+	}()
+	y := p.Acquire()
+	p.Release(y)
+	nd.JoinAll()
+	nd.Reach("selftest.end")
+}
